@@ -78,7 +78,13 @@ fn gen_line(rng: &mut Rng) -> String {
         let depth = [2u64, 9, 120, 1_000, 4_000, 20_000][rng.below(6) as usize];
         let inner = ["get x", "set k v", "keys", "zzz", ""][rng.below(5) as usize];
         // (the handler strips line feeds around what an envelope carries: over WebSocket / HTTP a level may start with one)
-        let level = if rng.chance(1, 4) { "rp 1 \n" } else { "rp 1 " };
+        // (... or with a carriage return, which a front end that tolerates CR LF line ends may strip as well)
+        let level = match rng.below(8) {
+            0 | 1 => "rp 1 \n",
+            2 => "rp 1 \r",
+            3 => "rp 1 \r\n",
+            _ => "rp 1 ",
+        };
         return format!("{}{}", level.repeat(depth as usize), inner);
     }
     if rng.chance(1, 4) {
